@@ -253,19 +253,19 @@ pub fn property() -> Property {
             },
             check,
         ),
-        prop_family("numerals", 30_000, 1_500_000, |_| numeral_line().prop_map(|l| StoreCase { lines: vec![l], seed: 0 }), check),
-        prop_family("data-lines", 30_000, 1_500_000, |_| data_line().prop_map(|l| StoreCase { lines: vec![l], seed: 0 }), check),
-        prop_family("text-lines", 10_000, 500_000, |_| text_line().prop_map(|l| StoreCase { lines: vec![l], seed: 0 }), check),
+        prop_family("numerals", 120_000, 1_500_000, |_| numeral_line().prop_map(|l| StoreCase { lines: vec![l], seed: 0 }), check),
+        prop_family("data-lines", 120_000, 1_500_000, |_| data_line().prop_map(|l| StoreCase { lines: vec![l], seed: 0 }), check),
+        prop_family("text-lines", 60_000, 500_000, |_| text_line().prop_map(|l| StoreCase { lines: vec![l], seed: 0 }), check),
         prop_family(
             "atom-lines",
-            40_000,
+            160_000,
             2_000_000,
             |_| prop::collection::vec(atom_line(12), 1..4).prop_map(|v| StoreCase { lines: v.into_iter().enumerate().map(|(i, l)| format!("{} {}", 10 * (i + 1), l)).collect(), seed: 0 }),
             check,
         ),
         prop_family(
             "programs",
-            8_000,
+            25_000,
             400_000,
             |_| (gen::program(GenCfg::C03.with_input()), gen::style(), any::<u64>()).prop_map(|(p, st, seed)| StoreCase { lines: render_program(&p, st), seed }),
             check,
